@@ -2608,7 +2608,7 @@ int32 parseCertificateRequest(ssl_t *ssl,
         while (len > 2)
         {
             certLen = GETSHORT(c); c += 2;
-            if (certLen == 0 || (end - c) < certLen || certLen > len)
+            if (certLen == 0 || (end - c) < certLen || certLen > len - 2)
             {
                 ssl->err = SSL_ALERT_DECODE_ERROR;
                 psTraceErrr("Invalid CertificateRequest message " \
